@@ -76,6 +76,27 @@ Theorem C03_whole_trace_in_rings_is_reported_in_one_report :
         incl (coll_cores (mkColl sp (ti_trace it) (ti_parent it))) (map core3 recs).
 Proof. exact whole_trace_in_rings_is_reported_in_one_report. Qed.
 
+(* the same from the threads' side: [landed t c s] -- thread t has pushed c (it is in t's ring,
+   or already in the batch).  In any reachable idle state, once the commit of c has landed: the
+   cycle that begins now reports, in its one report, every span of every SubmitSpans for c that
+   has landed, from whatever thread.  (That a finished span's commands land is
+   C01_commands_of_a_call_land.) *)
+Theorem C03_landed_trace_is_reported_whole :
+  forall dbg ringcap stackcap qcap h0 h c,
+    let s := fst (run (sys_init dbg ringcap stackcap qcap) h0) in
+    let s1 := fst (run s (ACBegin :: h)) in
+    s_pc s = PIdle -> s_installed s = true -> no_process h ->
+    s_pc s1 = PDrained -> s_cancelable s1 = true ->
+    (exists tc, landed tc (CCommit c) s) ->
+    amem c (s_active s1) = true \/ (exists ts, landed ts (CStart c) s) ->
+    ~ In c (b_drop (s_batch s1)) ->
+    exists recs st n,
+      snd (step s1 ACProcess) = OReport recs st n /\
+      amem c (s_active (fst (step s1 ACProcess))) = false /\
+      forall t sp tk it, landed t (CSubmit sp tk) s -> In it tk -> ti_collect it = c ->
+        incl (coll_cores (mkColl sp (ti_trace it) (ti_parent it))) (map core3 recs).
+Proof. exact landed_trace_is_reported_whole. Qed.
+
 (* ACROSS CYCLES.  A SubmitSpans for c processed by one cycle (c active or started, neither
    cancelled nor committed in that batch) is held by the collector -- through any history
    without a process step or a new reporter, whatever threads and drains do -- and the cycle
@@ -134,3 +155,4 @@ Print Assumptions C03_commit_delivers_whole.
 Print Assumptions C03_whole_trace_in_rings_is_reported_in_one_report.
 Print Assumptions C03_held_submit_is_reported_with_the_commit.
 Print Assumptions C03_held_after_process.
+Print Assumptions C03_landed_trace_is_reported_whole.
